@@ -228,7 +228,7 @@ def check_select_layout(ctx, F, tag):
             qadd[k] = any(st["s"] == "assign" and st["rv"]["r"] == "bin" and st["rv"]["op"].startswith("Add") and
                           any(x[0] == "call" and x[1].endswith("Access<'a>>::get") and (self_path(x[2][0]) or [None])[-1] == k for x in subterms(qb.term_of_rvalue(st["rv"])))
                           for _, _, st in qb.stmts())
-        base = [qb.term_of_rvalue(st["rv"]) for _, _, st in qb.stmts() if st["s"] == "assign" and not st["lhs"]["p"] and qb.local_name(st["lhs"]["l"]) == "result"]
+        base = [qb.term_of_rvalue(st["rv"]) for _, _, st in qb.stmts() if st["s"] == "assign" and not st["lhs"]["p"]]
         qbase = any(m(Call(lambda n_: n_.endswith("Access<'a>>::get"), SelfField("samples"), Bin("Mul", Const(2), ANY)), x) for x in base)
     ok = dom and okpos and all(o for _, o, _ in rel) and len(rel) >= 2 and qok and tagbit.get("long") == qpar.get("long") == "even" and tagbit.get("short") == qpar.get("short") == "odd" and \
         qadd.get("long") and qadd.get("short") and qbase
